@@ -91,7 +91,11 @@ def check_state(H, tc, true, n, w, thr, witness, site):
     elif any(mc[i][1] < mc[i + 1][1] for i in range(len(mc) - 1)):
         F('most_common_sorted', 'n omitted', repr(mc))
     for nn in (0, 1, 2, len(items) + 1):
-        m = tc.most_common(nn)
+        try:
+            m = tc.most_common(nn)
+        except Exception as e:
+            F('most_common_sorted', 'n given; raises', 'most_common(%d) raised %r (items %r)' % (nn, e, items))
+            continue
         exp_counts = sorted(d.values(), reverse=True)[:nn]
         if [c for _, c in m] != exp_counts or any(d.get(k) != c for k, c in m) or len(set(k for k, _ in m)) != len(m):
             F('most_common_sorted', 'n given', 'most_common(%d) -> %r items %r' % (nn, m, items))
@@ -200,6 +204,25 @@ def run():
                                'MappingProxyType': 'types.MappingProxyType({"a": 3})',
                                'ChainMap': 'collections.ChainMap({"a": 3})'}.get(kind)
                            if kind in ('mapping', 'UserDict', 'MappingProxyType', 'ChainMap') else None)
+
+    # no tracked key at all (everything was dropped by a compaction): every reader answers "nothing", most_common(n) included
+    for w in (2, 3, 4):
+        thr = thr_for(w)
+        tc = ThresholdCounter(thr)
+        for k in 'abcdefgh'[:w]:
+            tc.add(k)
+        H.ev(key=('empty-after-compaction', w), sample=dict(threshold=thr, stream='abcdefgh'[:w]))
+        if len(tc) == 0:
+            for nn in (None, 0, 1, 2):
+                try:
+                    got = tc.most_common() if nn is None else tc.most_common(nn)
+                except Exception as e:
+                    got = e
+                if got != []:
+                    H.fail('most_common_sorted', 'ThresholdCounter.most_common', 'no tracked key at all', dict(threshold=thr, n=nn),
+                           'most_common(%r) -> %r on a counter without tracked keys, expected []' % (nn, got),
+                           HDR + 'tc = ThresholdCounter(%r)\nfor k in %r: tc.add(k)\nassert len(tc) == 0 and tc.most_common(1) == []\n'
+                           % (thr, 'abcdefgh'[:w]))
 
     # a keyword that names a key of the mapping argument: both counts are added (mapping first, then the keywords)
     for w in (2, 3, 5):
